@@ -37,6 +37,7 @@ def seeds():
 MISSED_WHY = {
     "C01/eos-lf4-coefficient-digits": "5e-10 change of one LF4 coefficient: changes only the error constant, below the measurable window (stated under 'cannot reach')",
     "C07/corruption-check-skipped": "weakened corruption test on append matters only for a few cut offsets; restart is strided in the quick tier (all offsets in thorough)",
+    "C05/input-nallocated-not-set": "not visible in single-snapshot round trips (C05's domain); CAUGHT by the C06 check (history skeletons: array shrinks between snapshots)",
     "C06/blob-index-not-incremented": "equivalent for the property: no reader uses the trailer's index member; count, times and content of every snapshot are unchanged",
     "C06/diff-against-previous-size": "a shrunken field is compared over the old length (out-of-bounds read, result still 'differs'): no behavioural change in the plain build; CAUGHT by the `--sanitize` leg of the thorough command (ASan abort in sub history)",
     "C07/offset-check-disabled": "equivalent under the prefix-cut crash model: the reader's offset checksum is redundant when files are only ever truncated",
